@@ -288,3 +288,46 @@ async fn d13_replayed_clear_lowers_contiguous_length() {
     assert!(!c.has(2));
     assert_eq!(c.info().contiguous_length, 2, "contiguous length must equal the smallest index that is not held");
 }
+
+/// D14 (C12 / C02, reported as a side finding by a seeding sub-agent): a crash inside
+/// make_read_only — whose flush rewrites BOTH header slots and then truncates the log — must
+/// recover a core (writable or read-only) with all data, whatever the number of entries that were
+/// only in the oplog.
+#[tokio::test]
+async fn d14_crash_during_make_read_only_recovers() {
+    for n in 1..=8u8 {
+        // how many mutating storage operations does make_read_only issue for this history?
+        let total = {
+            let d = Disk::new();
+            let mut c = create(&d, keys()).await;
+            for i in 0..n {
+                c.append(&[i]).await.unwrap();
+            }
+            let b = d.ops();
+            assert!(c.make_read_only().await.unwrap());
+            d.ops() - b
+        };
+        for k in 0..total {
+            let d = Disk::new();
+            let mut c = create(&d, keys()).await;
+            for i in 0..n {
+                c.append(&[i]).await.unwrap();
+            }
+            {
+                let mut ctl = d.ctl.lock().unwrap();
+                ctl.crash_at = Some(ctl.ops + k);
+            }
+            let _ = c.make_read_only().await;
+            drop(c);
+            d.heal();
+            let mut c = match reopen(&d).await {
+                Ok(c) => c,
+                Err(e) => panic!("{n} appends, crash before operation {k} of {total} of make_read_only: reopen fails: {e}"),
+            };
+            assert_eq!(c.info().length, n as u64, "{n} appends, crash before operation {k} of {total}: length after recovery");
+            for i in 0..n as u64 {
+                assert_eq!(c.get(i).await.unwrap(), Some(vec![i as u8]), "{n} appends, crash before operation {k}: block {i}");
+            }
+        }
+    }
+}
